@@ -46,6 +46,10 @@
 #undef private
 #undef protected
 
+// the library prints notices to std::cout; results go to a separate stream
+static FILE *g_out = stdout;
+#define printf(...) fprintf(g_out, __VA_ARGS__)
+
 #include "driver_util.h"
 
 // command tables live in the included parts (one translation unit keeps the
@@ -75,9 +79,9 @@ static void run_case_child(const std::vector<std::string> &lines) {
   for (auto &l : lines) {
     auto tk = split(l);
     run_command(st, tk);
-    fflush(stdout);
+    fflush(g_out);
   }
-  fflush(stdout);
+  fflush(g_out);
 }
 
 int main(int argc, char **argv) {
@@ -114,7 +118,9 @@ int main(int argc, char **argv) {
     fflush(stdout);
     pid_t pid = fork();
     if (pid == 0) {
-      dup2(po[1], 1);
+      dup2(po[1], 3);
+      g_out = fdopen(3, "w");
+      dup2(pe[1], 1); // library chatter on stdout joins stderr
       dup2(pe[1], 2);
       close(po[0]);
       close(pe[0]);
@@ -185,7 +191,8 @@ int main(int argc, char **argv) {
             el.find("runtime error") != std::string::npos || el.find("WARNING: ThreadSanitizer") != std::string::npos ||
             el.find("    #0 ") != std::string::npos || el.find("    #1 ") != std::string::npos ||
             el.find("    #2 ") != std::string::npos || el.find("terminate called") != std::string::npos) {
-          if (kept++ < 12)
+          bool summary = el.find("SUMMARY: ") != std::string::npos;
+          if (summary || kept++ < 12)
             printf("ERR %s\n", el.c_str());
         }
       }
